@@ -750,4 +750,105 @@ example : ∃ s0 : MS ℝ, msInit false true 4 [2] [0.8, 0.6, 0.5] [0.4, 0.3, 0.
     exact setAnis_pos hv.anis_pos
   rw [if_neg (by omega), h3]
 
+/-! ### a kriging object between calls (`KS`, `ksStep`): the documented refresh puts conditions and targets into ONE
+current geometry
+
+`krige.model.anis = …` / `krige.model.len_scale = […]` change the model object in place, `krige.model = m` swaps it
+(e.g. the same covariance expressed in another `geo_scale`); `set_condition()` recomputes `_krige_pos` with the model
+of that moment, a call isometrizes its targets with the current model. -/
+
+/-- after `set_condition()` (no arguments) `_krige_pos` is `isometrize` of the stored conditioning tuple under the CURRENT
+    model and `geo_scale`; nothing else changes -/
+theorem ks_refresh_current (s : KS ℝ) :
+    let s1 := (ksStep s (.setCond none)).1
+    s1.kpos = msIsometrize s.R s.model s.cond ∧ s1.model = s.model ∧ s1.R = s.R ∧ s1.cond = s.cond ∧ s1.pos = s.pos :=
+  ⟨rfl, rfl, rfl, rfl, rfl⟩
+
+/-- a call isometrizes the given (or, without argument, the stored) targets with the CURRENT model and `geo_scale` -/
+theorem ks_call_current (s : KS ℝ) (p : List (ℕ → ℝ)) :
+    (ksStep s (.call (some p))).2 = .iso (msIsometrize s.R s.model p) ∧
+    (ksStep s (.call none)).2 = .iso (msIsometrize s.R s.model s.pos) := ⟨rfl, rfl⟩
+
+/-- only `set_condition` writes `_krige_pos`: after in-place setters, a model replacement or calls it is still the tuple
+    isometrized with the model of the last `set_condition` — the reason the refresh is documented -/
+theorem ks_kpos_is_last_setCond (s : KS ℝ) (ops : List (KOp ℝ)) (h : ∀ op ∈ ops, ∀ c, op ≠ .setCond c) :
+    (ksFinal s ops).kpos = s.kpos := by
+  induction ops generalizing s with
+  | nil => rfl
+  | cons op rest ih =>
+    show (ksFinal (ksStep s op).1 rest).kpos = s.kpos
+    rw [ih _ (fun o ho => h o (List.mem_cons_of_mem _ ho))]
+    cases op with
+    | setCond c => exact absurd rfl (h _ List.mem_cons_self c)
+    | setter o => rfl
+    | replace R ll tm d ls an ag => simp only [ksStep]; cases msInit ll tm d ls an ag <;> rfl
+    | call p => cases p <;> rfl
+
+/-- a model object held by a kriging object stays valid through every operation -/
+theorem ksStep_valid {s : KS ℝ} (hs : MSValid s.model) (op : KOp ℝ) : MSValid (ksStep s op).1.model := by
+  cases op with
+  | setter o => exact msStepKeep_valid hs o
+  | replace R ll tm d ls an ag =>
+    simp only [ksStep]
+    cases h : msInit ll tm d ls an ag with
+    | ok m => exact msInit_valid h
+    | error e => exact hs
+  | setCond c => cases c <;> exact hs
+  | call p => cases p <;> exact hs
+
+theorem ksFinal_valid {s : KS ℝ} (hs : MSValid s.model) (ops : List (KOp ℝ)) : MSValid (ksFinal s ops).model := by
+  induction ops generalizing s with
+  | nil => exact hs
+  | cons op rest ih => exact ih (ksStep_valid hs op)
+
+/-- **lat-lon (+ time) kriging after the refresh**: whatever the history, after `set_condition()` the conditioning points
+    AND the targets of the next call (given or stored) are mapped by the same function: the sphere point of the CURRENT
+    `geo_scale` with the time divided by the CURRENT last ratio -/
+theorem ks_refresh_latlon (s : KS ℝ) (hl : s.model.latlon = true) (p : List (ℕ → ℝ)) :
+    let s1 := (ksStep s (.setCond none)).1
+    let f := fun x : ℕ → ℝ => isometrizeLL s.R s.model.temporal s.model.anis (x 0) (x 1) (x 2)
+    s1.kpos = s.cond.map f ∧ (ksStep s1 (.call (some p))).2 = .iso (p.map f) ∧ (ksStep s1 (.call none)).2 = .iso (s.pos.map f) := by
+  refine ⟨?_, ?_, ?_⟩ <;> simp [ksStep, msIsometrize, hl]
+
+/-- the squared distance of two lat-lon + time points after `isometrize`: `chord² + (Δt / anis[-1])²` with
+    `chord² = 4R²·a` (haversine argument `a`) — every list of ratios, every `geo_scale` -/
+theorem distSq_latlon_temporal (R : ℝ) (anis : List ℝ) (lat1 lon1 t1 lat2 lon2 t2 : ℝ) :
+    distSq (isometrizeLL R true anis lat1 lon1 t1) (isometrizeLL R true anis lat2 lon2 t2)
+      = 4 * (R * R) * havArg lat1 lon1 lat2 lon2
+        + (t1 / lastAnis anis - t2 / lastAnis anis) * (t1 / lastAnis anis - t2 / lastAnis anis) := by
+  rw [← chord_is_haversine]
+  simp [isometrizeLL, latlon2posT, distSq, P3.toList, P3.normSq, P3.sub]
+
+/-- without time: `chord²` -/
+theorem distSq_latlon (R : ℝ) (anis : List ℝ) (lat1 lon1 t1 lat2 lon2 t2 : ℝ) :
+    distSq (isometrizeLL R false anis lat1 lon1 t1) (isometrizeLL R false anis lat2 lon2 t2)
+      = 4 * (R * R) * havArg lat1 lon1 lat2 lon2 := by
+  rw [← chord_is_haversine]
+  simp [isometrizeLL, distSq, P3.toList, P3.normSq, P3.sub]
+
+/-- **the same covariance in another unit**: replacing the model of radius `R`, length scale `l` and time ratio `κ` by
+    the model of radius `c·R`, length scale `c·l` and time ratio `κ / c` (`c > 0`: km ↔ radian ↔ degree) multiplies
+    every isometrized distance by `c`, so every covariance `g(r / len_scale)` between conditions and targets — hence
+    the kriging matrix, the right-hand sides, estimate and variance of the refreshed object — is unchanged. -/
+theorem unit_change_invariant (g : ℝ → ℝ) {c : ℝ} (hc : 0 < c) (R l : ℝ) (anis anis' : List ℝ)
+    (hκ : lastAnis anis' = lastAnis anis / c) (temporal : Bool) (lat1 lon1 t1 lat2 lon2 t2 : ℝ) :
+    g (Real.sqrt (distSq (isometrizeLL (c * R) temporal anis' lat1 lon1 t1) (isometrizeLL (c * R) temporal anis' lat2 lon2 t2)) / (c * l))
+      = g (Real.sqrt (distSq (isometrizeLL R temporal anis lat1 lon1 t1) (isometrizeLL R temporal anis lat2 lon2 t2)) / l) := by
+  have hc0 : c ≠ 0 := ne_of_gt hc
+  have key : distSq (isometrizeLL (c * R) temporal anis' lat1 lon1 t1) (isometrizeLL (c * R) temporal anis' lat2 lon2 t2)
+      = (c * c) * distSq (isometrizeLL R temporal anis lat1 lon1 t1) (isometrizeLL R temporal anis lat2 lon2 t2) := by
+    cases temporal with
+    | false => rw [distSq_latlon, distSq_latlon]; ring
+    | true =>
+      rw [distSq_latlon_temporal, distSq_latlon_temporal, hκ]
+      have e : ∀ t : ℝ, t / (lastAnis anis / c) = c * (t / lastAnis anis) := fun t => by
+        rw [div_div_eq_mul_div]; ring
+      rw [e t1, e t2]; ring
+  rw [key, Real.sqrt_mul (mul_self_nonneg c), Real.sqrt_mul_self (le_of_lt hc), mul_div_mul_left _ _ hc0]
+
+example : (0:ℝ) < 6371 ∧ lastAnis ([1, 1, 0.002 / 6371] : List ℝ) = lastAnis ([1, 1, 0.002] : List ℝ) / 6371 := by
+  constructor
+  · norm_num
+  · simp [lastAnis]
+
 end GSV.Props.C13
